@@ -12,9 +12,15 @@ CHECKS = [
       text='Proved in Lean for all trees and environments: the sequence of variable lookups and native calls (with argument values) equals the prescribed one '
            '(trace_eq_spec) with laziness corollaries (and/or short circuit, conditional branches, argument lists). Tie: the same trees executed through a recording Environment.',
       note=TB + 'the recording Environment in harness/src/env.rs logs exactly the trait calls.'),
+ dict(property_id='C12', design_ref='DESIGN.md 7 C12',
+      technique='Lean 4 proof of fromJson(toJson e) = e by induction over trees (serde data-model level) + JSON correspondence and bit-exact round trips on the crate',
+      text='Proved in Lean for all trees with finite number literals: deserialising the serialisation yields the identical tree (json_roundtrip), also through any faithful text layer; '
+           'and the exact boundary: a non-finite literal serialises to null and is rejected (json_nonfinite_counterexample; recorded known finding). '
+           'Tie: the canonical JSON produced by the crate is compared with the model; value- and text-route round trips are checked bit-exactly on the crate.',
+      note=TB + 'serde_json text layer (built with float_roundtrip) and serde derive are trusted; non-finite literals are a recorded known finding (C12-nonfinite-literal).'),
 ]
 _PENDING = 'not yet claimed: its model, theorems and streams are under construction in this framework (see DESIGN.md section 12, build order)'
 NOT_APPLICABLE = [dict(property_id=p, reason=_PENDING) for p in
-                  ['C01','C02','C05','C06','C07','C08','C09','C10','C11','C12','C13','C14','C15','C16','C17','C18','C19']]
+                  ['C01','C02','C05','C06','C07','C08','C09','C10','C11','C13','C14','C15','C16','C17','C18','C19']]
 NOTES = ('All checks share one engine: tools/check.py <id>. Replays: tools/check.py <id> --replay <file>. '
          'known_findings.json lists recorded defects (KNOWN-FINDING lines) and fixed ones.')
